@@ -2,9 +2,9 @@
 # tools/save_seed.sh <ID> <name> <demo-example> "<needs>" : copy a sub-agent's deliverables from /tmp/seed_<ID> into seeded/<name>/
 id=$1; name=$2; demo=$3; needs=$4
 mkdir -p /verif/seeded/$name
-cp /tmp/seed_$id/patch.diff /verif/seeded/$name/
-cp /tmp/seed_$id/demo.rs /verif/seeded/$name/
-cp /tmp/seed_$id/notes.md /verif/seeded/$name/agent_notes.md
+cp ${SEEDDIR:-/tmp/seed_$id}/patch.diff /verif/seeded/$name/
+cp ${SEEDDIR:-/tmp/seed_$id}/demo.rs /verif/seeded/$name/
+cp ${SEEDDIR:-/tmp/seed_$id}/notes.md /verif/seeded/$name/agent_notes.md
 python3 - "$id" "$name" "$demo" "$needs" <<'EOF'
 import json,sys
 id,name,demo,needs=sys.argv[1:5]
